@@ -92,8 +92,17 @@ PROPS = {
             {"op": "hex_parse", "budget": 3000, "what": "hexadecimal form (NOT under contract): hex_to_u64 never panics; Ok(v) only for "
              "1..16 significant hex digits (optional '+') with v their value; empty, non-hex, non-ASCII and 17+-digit strings give Err - "
              "bounded stand-in over fixed corner strings and random short strings"},
+            {"op": "cell_to_children", "budget": 3000, "what": "sentence 'every ID returned by any API call is in canonical form', hierarchy "
+             "calls: PROVED under C07 / C14 (contracts of cell_to_parent / cell_to_children in unit tree); here only a bounded cross-check "
+             "through the public functions (aliases, same-resolution and default-resolution calls included) so that this check also "
+             "notices a non-canonical ID handed out by them"},
+            {"op": "cell_to_parent", "budget": 3000, "what": "same, cell_to_parent"},
+            {"op": "uncompact", "budget": 1500, "what": "same, uncompact (PROVED under C09 / C14)"},
+            {"op": "compact_total", "budget": 1500, "what": "same, compact (PROVED under C08 / C14)"},
+            {"op": "lonlat_to_cell", "budget": 600, "what": "same, lonlat_to_cell (PROVED under C14: an Ok result is a canonical ID of the "
+             "requested resolution)"},
         ],
-        "search_ops": ["roundtrip", "serialize", "deserialize", "get_resolution"],
+        "search_ops": ["roundtrip", "serialize", "deserialize", "get_resolution", "cell_to_children", "cell_to_parent"],
         "level_text": "Unbounded proof (Verus/Z3) that the real get_resolution/deserialize/serialize, extracted verbatim on "
                       "every run, equal the documented bit layout (spec fn enc/dec/res_of written from the property), plus "
                       "pure lemmas: decode(encode(c))==c for every valid cell, resolution read-back, injectivity, every "
